@@ -28,6 +28,9 @@ WITNESSES = ["CommitConsumesTransaction"]
 def run(ctx):
     F = ctx.facts
     ctx.rule("C07.1", "no write-transaction method except commit reaches a durable / globally visible mutation primitive")
+    from .c02 import scanner_rule
+    ctx.rule("C07.3", "log scanners discard the records of a transaction that never committed when the next BeginTx arrives")
+    scanner_rule(ctx, "C07.3")
     ctx.rule("C07.2", "ndb_txn_rollback and the other non-commit C-API transaction entry points reach no commit")
     prims = {M.WRITE_PAGE_RAW: "page-file write", M.WAL_APPEND: "WAL append", M.WAL_REWRITE: "WAL rewrite",
              M.PUBLISH_RUN: "publish run", M.UPDATE_NODE_LABELS: "publish node labels", LABEL_GET_OR_CREATE: "label interner insert"}
